@@ -85,4 +85,78 @@ theorem quatDot_slerp_to {x1 y1 z1 w1 x2 y2 z2 w2 : ℝ} (s : ℝ)
   linear_combination (σ * s1) * h2 + σ * key
     - (s0 * (x1 * x2 + y1 * y2 + z1 * z2 + w1 * w2)) * hqq
 
+theorem abs_qsgn (D : ℝ) : |qsgn D| = 1 := by unfold qsgn; split_ifs <;> norm_num
+
+/-- the sign flip of the second leg equals that of the first -/
+theorem qsgn_second_leg {x1 y1 z1 w1 x2 y2 z2 w2 s : ℝ} (hs0 : 0 ≤ s) (hs1 : s ≤ 1)
+    (h : dblEps < arcLength x1 y1 z1 w1 x2 y2 z2 w2) :
+    qsgn (qsgn (quatDot x1 y1 z1 w1 x2 y2 z2 w2)
+        * Real.cos ((1 - s) * arcLength x1 y1 z1 w1 x2 y2 z2 w2))
+      = qsgn (quatDot x1 y1 z1 w1 x2 y2 z2 w2) := by
+  have hc := cos_arcLength h
+  have h0 := arcLength_nonneg x1 y1 z1 w1 x2 y2 z2 w2
+  have h1 := arcLength_le_pi_div_two x1 y1 z1 w1 x2 y2 z2 w2
+  have hm : (1 - s) * arcLength x1 y1 z1 w1 x2 y2 z2 w2 ≤ arcLength x1 y1 z1 w1 x2 y2 z2 w2 :=
+    mul_le_of_le_one_left h0 (by linarith)
+  have hm0 : 0 ≤ (1 - s) * arcLength x1 y1 z1 w1 x2 y2 z2 w2 := mul_nonneg (by linarith) h0
+  have hle := Real.cos_le_cos_of_nonneg_of_le_pi hm0 (by linarith [pi_pos]) hm
+  by_cases hd : quatDot x1 y1 z1 w1 x2 y2 z2 w2 < 0
+  · have hpos : 0 < Real.cos ((1 - s) * arcLength x1 y1 z1 w1 x2 y2 z2 w2) := by
+      have : 0 < |quatDot x1 y1 z1 w1 x2 y2 z2 w2| := abs_pos.mpr hd.ne
+      linarith
+    have hσ : qsgn (quatDot x1 y1 z1 w1 x2 y2 z2 w2) = -1 := if_pos hd
+    rw [hσ]; unfold qsgn; rw [if_pos (by linarith)]
+  · have hnn : 0 ≤ Real.cos ((1 - s) * arcLength x1 y1 z1 w1 x2 y2 z2 w2) := by
+      linarith [abs_nonneg (quatDot x1 y1 z1 w1 x2 y2 z2 w2)]
+    have hσ : qsgn (quatDot x1 y1 z1 w1 x2 y2 z2 w2) = 1 := if_neg hd
+    rw [hσ]; unfold qsgn; rw [if_neg (by linarith)]
+
+/-- SO(3) re-parameterisation, exact, for unit quaternions: if the first leg is in the slerp branch
+then the remaining leg must be above the clamp threshold too (`hleg`); if the first leg is in the
+copy branch both sides are `from` -/
+theorem so3_reparam_leaf {x1 y1 z1 w1 x2 y2 z2 w2 : ℝ} (s u : ℝ)
+    (h2 : x2 * x2 + y2 * y2 + z2 * z2 + w2 * w2 = 1) (hs0 : 0 ≤ s) (hs1 : s ≤ 1)
+    (hleg : dblEps < arcLength x1 y1 z1 w1 x2 y2 z2 w2 →
+      Real.cos ((1 - s) * arcLength x1 y1 z1 w1 x2 y2 z2 w2) ≤ 1 - 1 / 10 ^ 9) :
+    interpolate .so3 (interpolate .so3 (.so3 x1 y1 z1 w1) (.so3 x2 y2 z2 w2) s) (.so3 x2 y2 z2 w2) u
+      = interpolate .so3 (.so3 x1 y1 z1 w1) (.so3 x2 y2 z2 w2) (s + (1 - s) * u) := by
+  show interpolateW so2Interp so2Wrap .so3 (so3Interp x1 y1 z1 w1 x2 y2 z2 w2 s) (.so3 x2 y2 z2 w2) u
+    = so3Interp x1 y1 z1 w1 x2 y2 z2 w2 (s + (1 - s) * u)
+  by_cases h : dblEps < arcLength x1 y1 z1 w1 x2 y2 z2 w2
+  · have hdot := quatDot_slerp_to s h2 h
+    have hσ := qsgn_second_leg hs0 hs1 h
+    have h0 := arcLength_nonneg x1 y1 z1 w1 x2 y2 z2 w2
+    have h1 := arcLength_le_pi_div_two x1 y1 z1 w1 x2 y2 z2 w2
+    have hm : (1 - s) * arcLength x1 y1 z1 w1 x2 y2 z2 w2 ≤ arcLength x1 y1 z1 w1 x2 y2 z2 w2 :=
+      mul_le_of_le_one_left h0 (by linarith)
+    have hm0 : 0 ≤ (1 - s) * arcLength x1 y1 z1 w1 x2 y2 z2 w2 := mul_nonneg (by linarith) h0
+    have hcn : 0 ≤ Real.cos ((1 - s) * arcLength x1 y1 z1 w1 x2 y2 z2 w2) :=
+      Real.cos_nonneg_of_neg_pi_div_two_le_of_le (by linarith [pi_pos]) (by linarith)
+    rw [so3Interp_slerpC s h, so3Interp_slerpC _ h]
+    simp only [interpolateW]
+    generalize hcx : slerpC x1 x2 (arcLength x1 y1 z1 w1 x2 y2 z2 w2)
+      (qsgn (quatDot x1 y1 z1 w1 x2 y2 z2 w2)) s = cx at hdot ⊢
+    generalize hcy : slerpC y1 y2 (arcLength x1 y1 z1 w1 x2 y2 z2 w2)
+      (qsgn (quatDot x1 y1 z1 w1 x2 y2 z2 w2)) s = cy at hdot ⊢
+    generalize hcz : slerpC z1 z2 (arcLength x1 y1 z1 w1 x2 y2 z2 w2)
+      (qsgn (quatDot x1 y1 z1 w1 x2 y2 z2 w2)) s = cz at hdot ⊢
+    generalize hcw : slerpC w1 w2 (arcLength x1 y1 z1 w1 x2 y2 z2 w2)
+      (qsgn (quatDot x1 y1 z1 w1 x2 y2 z2 w2)) s = cw at hdot ⊢
+    have habs : |quatDot cx cy cz cw x2 y2 z2 w2|
+        = Real.cos ((1 - s) * arcLength x1 y1 z1 w1 x2 y2 z2 w2) := by
+      rw [hdot, abs_mul, abs_qsgn, one_mul, abs_of_nonneg hcn]
+    have hbig2 : dblEps < arcLength cx cy cz cw x2 y2 z2 w2 :=
+      arcLength_big_of_le (by rw [habs]; exact hleg h)
+    have harc : arcLength cx cy cz cw x2 y2 z2 w2
+        = (1 - s) * arcLength x1 y1 z1 w1 x2 y2 z2 w2 := by
+      rw [(arcLength_big hbig2).2, habs, Real.arccos_cos hm0 (by linarith [pi_pos])]
+    have hs := (sin_arcLength_pos h).ne'
+    have hs2 := (sin_arcLength_pos hbig2).ne'
+    rw [harc] at hs2
+    rw [so3Interp_slerpC u hbig2, harc, hdot, hσ, ← hcx, ← hcy, ← hcz, ← hcw]
+    simp only [slerpC_reparam _ _ _ _ _ _ hs hs2]
+  · rw [so3Interp_small s h, so3Interp_small _ h]
+    simp only [interpolateW]
+    exact so3Interp_small u h
+
 end OmplModel.SpaceInterp
